@@ -10,6 +10,7 @@ pub struct Cfg {
     pub dwarf: bool,
     pub code_transform: bool,
     pub only_stable: bool,
+    pub synthetic_names: bool,
 }
 
 impl Cfg {
@@ -20,6 +21,7 @@ impl Cfg {
             dwarf: false,
             code_transform: false,
             only_stable: false,
+            synthetic_names: false,
         }
     }
     pub fn bare() -> Cfg {
@@ -29,6 +31,7 @@ impl Cfg {
             dwarf: false,
             code_transform: false,
             only_stable: false,
+            synthetic_names: false,
         }
     }
     pub fn to_config(&self) -> ModuleConfig {
@@ -38,6 +41,7 @@ impl Cfg {
         c.preserve_code_transform(self.code_transform);
         c.generate_dwarf(self.dwarf);
         c.only_stable_features(self.only_stable);
+        c.generate_synthetic_names_for_anonymous_items(self.synthetic_names);
         c
     }
 }
